@@ -37,7 +37,7 @@ def _attrs(draw, fname):
     return [{"name": n, "value": draw(vals)} for n in names]
 
 
-PROFILE = S.Profile(S.ident_names(), single=("mandatory", "optional"),
+PROFILE = S.Profile(S.ident_or_dict_names(), single=("mandatory", "optional"),
                     group=("alternative", "or", "mutex", "card"), layout="free", attrs=_attrs, ctc_max=3, ctc_depth=2)
 
 
